@@ -143,9 +143,12 @@ func TestGovcReplaySharedCapacity(t *testing.T) {
 func govcDiff(a, b []byte) int {
 	n := 0
 	for i := range a {
-		if a[i] != b[i] {
+		if i >= len(b) || a[i] != b[i] {
 			n++
 		}
+	}
+	if len(b) > len(a) {
+		n += len(b) - len(a)
 	}
 	return n
 }
@@ -285,4 +288,133 @@ func TestGovcReplayResetLeak(t *testing.T) {
 		return
 	}
 	fmt.Println("NOT-REPRODUCED: reset authorizer and new authorizer agree")
+}
+
+// TestGovcReplayBlockScoping: C03/C04 — each later block's checks see the
+// authority-level facts plus that block's own facts, and nothing of any other block.
+func TestGovcReplayBlockScoping(t *testing.T) {
+	scope := func(s string) Fact { return Fact{Predicate: Predicate{Name: "scope", IDs: []Term{String(s)}}} }
+	checkScope := func(s string) Check {
+		return Check{Queries: []Rule{{Head: Predicate{Name: "q"}, Body: []Predicate{{Name: "scope", IDs: []Term{String(s)}}}}}}
+	}
+	for nAuth := 1; nAuth <= 10; nAuth++ {
+		for _, crossCheck := range []bool{false, true} {
+			pub, priv, _ := ed25519.GenerateKey(rand.Reader)
+			b := NewBuilder(priv)
+			for i := 0; i < nAuth; i++ {
+				b.AddAuthorityFact(Fact{Predicate: Predicate{Name: "right", IDs: []Term{Integer(int64(i))}}})
+			}
+			tok, err := b.Build()
+			if err != nil {
+				t.Fatalf("build: %v", err)
+			}
+			bb := tok.CreateBlock()
+			bb.AddFact(scope("one"))
+			if crossCheck {
+				bb.AddCheck(checkScope("two")) // must fail: scope("two") belongs to block 2 only
+			} else {
+				bb.AddCheck(checkScope("one")) // must pass: the block's own fact
+			}
+			tok, err = tok.Append(rand.Reader, bb.Build())
+			if err != nil {
+				t.Fatalf("append: %v", err)
+			}
+			bb = tok.CreateBlock()
+			bb.AddFact(scope("two"))
+			bb.AddCheck(checkScope("two"))
+			tok, err = tok.Append(rand.Reader, bb.Build())
+			if err != nil {
+				t.Fatalf("append: %v", err)
+			}
+			a, err := tok.Authorizer(pub)
+			if err != nil {
+				t.Fatalf("authorizer: %v", err)
+			}
+			a.AddPolicy(DefaultAllowPolicy)
+			err = a.Authorize()
+			if crossCheck && err == nil {
+				fmt.Printf("REPRODUCED: with %d authority facts, block 1's 'check if scope(\"two\")' passes although only block 2 defines scope(\"two\")\n", nAuth)
+				t.Fail()
+				return
+			}
+			if !crossCheck && err != nil {
+				fmt.Printf("REPRODUCED: with %d authority facts, block 1's 'check if scope(\"one\")' fails although block 1 defines that fact: %v\n", nAuth, err)
+				t.Fail()
+				return
+			}
+		}
+	}
+	// a block that carries only a rule: what the rule derives must not reach a later block
+	{
+		pub, priv, _ := ed25519.GenerateKey(rand.Reader)
+		b := NewBuilder(priv)
+		b.AddAuthorityFact(Fact{Predicate: Predicate{Name: "user", IDs: []Term{String("alice")}}})
+		tok, _ := b.Build()
+		bb := tok.CreateBlock()
+		bb.AddRule(Rule{Head: Predicate{Name: "admin", IDs: []Term{Variable("u")}}, Body: []Predicate{{Name: "user", IDs: []Term{Variable("u")}}}})
+		tok, _ = tok.Append(rand.Reader, bb.Build())
+		bb = tok.CreateBlock()
+		bb.AddCheck(Check{Queries: []Rule{{Head: Predicate{Name: "q"}, Body: []Predicate{{Name: "admin", IDs: []Term{String("alice")}}}}}})
+		tok, _ = tok.Append(rand.Reader, bb.Build())
+		a, err := tok.Authorizer(pub)
+		if err != nil {
+			t.Fatalf("authorizer: %v", err)
+		}
+		a.AddPolicy(DefaultAllowPolicy)
+		if err := a.Authorize(); err == nil {
+			fmt.Println("REPRODUCED: authority user(\"alice\"); block 1 carries only the rule admin($u) <- user($u); block 2's 'check if admin(\"alice\")' passes: a fact derived inside block 1 reached block 2")
+			t.Fail()
+			return
+		}
+	}
+	fmt.Println("NOT-REPRODUCED: block checks see exactly the authority facts and their own block's facts")
+}
+
+// TestGovcReplayFork: C07/C08/C17/C19 — two tokens attenuated from the same parent are
+// independent: creating the second must not change the first one's bytes,
+// revocation identifiers or verification, whatever the parent's depth.
+func TestGovcReplayFork(t *testing.T) {
+	for depth := 0; depth <= 8; depth++ {
+		pub, priv, _ := ed25519.GenerateKey(rand.Reader)
+		b := NewBuilder(priv)
+		b.AddAuthorityFact(Fact{Predicate: Predicate{Name: "right", IDs: []Term{String("read")}}})
+		parent, err := b.Build()
+		if err != nil {
+			t.Fatal(err)
+		}
+		for i := 0; i < depth; i++ {
+			parent, err = parent.Append(rand.Reader, govcBlock(parent, fmt.Sprintf("p%d", i)))
+			if err != nil {
+				t.Fatal(err)
+			}
+		}
+		c1, err := parent.Append(rand.Reader, govcBlock(parent, "left"))
+		if err != nil {
+			t.Fatal(err)
+		}
+		bytes1, _ := c1.Serialize()
+		ids1 := c1.RevocationIds()
+		last1 := append([]byte{}, ids1[len(ids1)-1]...)
+		if _, err := parent.Append(rand.Reader, govcBlock(parent, "right")); err != nil {
+			t.Fatal(err)
+		}
+		bytes2, _ := c1.Serialize()
+		ids2 := c1.RevocationIds()
+		if !bytes.Equal(bytes1, bytes2) {
+			fmt.Printf("REPRODUCED: parent with %d appended blocks: after a second Append on the parent, the first child serializes differently (%d bytes differ)\n", depth, govcDiff(bytes1, bytes2))
+			t.Fail()
+			return
+		}
+		if !bytes.Equal(last1, ids2[len(ids2)-1]) {
+			fmt.Printf("REPRODUCED: parent with %d appended blocks: the first child's last revocation identifier changed after a sibling was created\n", depth)
+			t.Fail()
+			return
+		}
+		if _, err := c1.Authorizer(pub); err != nil {
+			fmt.Printf("REPRODUCED: parent with %d appended blocks: the first child no longer verifies after a sibling was created: %v\n", depth, err)
+			t.Fail()
+			return
+		}
+	}
+	fmt.Println("NOT-REPRODUCED: siblings stay independent at every depth tried")
 }
